@@ -187,15 +187,14 @@ def classify(recipe, sims, variant, in_bytes):
     return True, f'circuit={name}/{recipe[2] if recipe[0] == "nl" else ""}/{variant}', f'sims={sims}: (what, node, byte, simulated, netlist value)={bad[0]}'
 
 
-def check_item(item):
+def _check_path(item, rep, eng):
     recipe, sims, variant = item
-    rep = common.Report()
     name = recipe[1]['name'] if recipe[0] == 'nl' else recipe[1]
     try:
         c = netlist.from_recipe(recipe)
     except Exception as e:
         rep.error(f'cannot build {name}: {type(e).__name__}: {e}')
-        return rep
+        return
     try:
         s, ins, obl = run_symbolic(c, sims, variant)
     except Exception as e:
@@ -205,15 +204,15 @@ def check_item(item):
             rep.violation(f'{key}@{name}/{variant}', what, {'recipe': recipe, 'sims': sims, 'variant': variant, 'in_bytes': []})
         else:
             rep.error(f'symbolic run failed on {name}/{variant}: {type(e).__name__}: {e}')
-        return rep
+        return
     rep.counts['circuits'] += 1
     rep.counts['obligations'] += len(obl)
     rep.counts['ops'] += len(s.ops)
-    q = lanes.Q(rep)
+    q = lanes.Q(rep, eng=eng)
     diffs = [((a ^ b) & m) != 0 for (_, _, _, a, b, m) in obl if m]
     if not diffs:
         rep.counts['vacuous_items'] += 1
-        return rep
+        return
     # reachability twin: the obligation set must be refutable in principle (some output can differ from a fresh variable)
     r = q.check(z3.Or(diffs))
     if r == z3.unsat:
@@ -229,20 +228,30 @@ def check_item(item):
             rep.error(f'counterexample on {name}/{variant} does not replay on the real code (model error)')
     else:
         rep.error(f'solver returned unknown on {name}/{variant}')
-    return rep
+    return
 
+
+def check_item(item):
+    """one exploration per item: the real simulator normally has a single path; data-dependent fast paths fork (E2)"""
+    rep = common.Report()
+    lanes.explore(lambda eng: _check_path(item, rep, eng), rep)
+    return rep
 
 def twin(rep):
     """vacuity guard: the same pipeline must report a mismatch when the oracle is deliberately wrong (AND2 vs OR2)."""
     nl = netlist.NL('twin', [('a', 'in'), ('b', 'in'), ('z', 'out')], [('g', 'AND2', ['z'], ['a', 'b'])])
     c = netlist.build(nl, 'verilog')
-    s = LogicSim(c, 3, m=2)
-    ins = lanes.symbolize(s)
-    lanes.simulate(s)
-    q = lanes.Q(rep)
-    wrong = ins[(0, 0, 0)] | ins[(1, 0, 0)]
-    if q.check(((s.s[1, 2, 0, 0] ^ wrong) & 7) != 0) != z3.sat:
-        rep.error('reachability twin failed: wrong oracle not refuted')
+    refuted = []
+
+    def fn(eng):
+        s = LogicSim(c, 3, m=2)
+        ins = lanes.symbolize(s)
+        lanes.simulate(s)
+        q = lanes.Q(rep, eng=eng)
+        wrong = ins[(0, 0, 0)] | ins[(1, 0, 0)]
+        refuted.append(q.check(((s.s[1, 2, 0, 0] ^ wrong) & 7) != 0) == z3.sat)
+    lanes.explore(fn, rep)
+    if not any(refuted): rep.error('reachability twin failed: wrong oracle not refuted')
     rep.counts['twins'] += 1
 
 
